@@ -36,6 +36,7 @@ func main() {
 	for _, p := range strings.Split(*pkgs, ",") {
 		want[p] = true
 	}
+	closure(*src, want)
 	rewritten := 0
 	err := filepath.WalkDir(*src, func(path string, d fs.DirEntry, err error) error {
 		if err != nil {
@@ -78,6 +79,57 @@ func main() {
 	}
 	if rewritten == 0 {
 		fmt.Fprintln(os.Stderr, "instrument: nothing to redirect (the packages no longer import sync/atomic, sync or runtime)")
+	}
+}
+
+// closure adds to want every package directory of the same module that the wanted
+// packages import, directly or indirectly: if the code under test moves a spin loop
+// or an atomic counter into a helper package of the library, that package needs the
+// scheduling points too (an uninstrumented spin would never hand the baton on).
+func closure(src string, want map[string]bool) {
+	mod := ""
+	if b, err := os.ReadFile(filepath.Join(src, "go.mod")); err == nil {
+		for _, l := range strings.Split(string(b), "\n") {
+			if f := strings.Fields(l); len(f) == 2 && f[0] == "module" {
+				mod = strings.Trim(f[1], "\"")
+			}
+		}
+	}
+	if mod == "" {
+		return
+	}
+	var todo []string
+	for d := range want {
+		todo = append(todo, d)
+	}
+	for len(todo) > 0 {
+		dir := todo[0]
+		todo = todo[1:]
+		ents, err := os.ReadDir(filepath.Join(src, dir))
+		if err != nil {
+			continue
+		}
+		for _, e := range ents {
+			n := e.Name()
+			if e.IsDir() || !strings.HasSuffix(n, ".go") || strings.HasSuffix(n, "_test.go") {
+				continue
+			}
+			f, err := parser.ParseFile(token.NewFileSet(), filepath.Join(src, dir, n), nil, parser.ImportsOnly)
+			if err != nil {
+				continue
+			}
+			for _, im := range f.Imports {
+				p, err := strconv.Unquote(im.Path.Value)
+				if err != nil || !strings.HasPrefix(p, mod+"/") {
+					continue
+				}
+				if d := strings.TrimPrefix(p, mod+"/"); !want[d] {
+					want[d] = true
+					todo = append(todo, d)
+					fmt.Printf("instrument: %s added (imported by %s)\n", d, dir)
+				}
+			}
+		}
 	}
 }
 
